@@ -16,14 +16,14 @@ CLAIMED = {
     "C02": dict(
         category="model_checking",
         technique="explicit-state BFS over insertion histories on the real object (stateless re-execution of the real insert calls), reference-model check after every transition",
-        text="Breadth-first search whose transition is the real insert / insert_with_statistics call on a clone of the real DelaunayTriangulation: every history over the per-dimension point alphabet (3x3 grid, unit cube + centre, D=4/5 cube alphabets; duplicates, on-edge/on-vertex, collinear and coplanar bootstrap prefixes included) to the reported depth, from the empty triangulation and from batch-constructed seeds, under the default policies and every single-policy deviation (ValidationPolicy, TopologyGuarantee, repair policy, check policy) plus at most one mid-history policy change, both kernels, release and debug-assertion profiles. After every call, whatever it returned, the state must be the bootstrap state or pass the independent Level 1-3 reference at the current guarantee; Inserted must add exactly the caller's vertex and the returned key must resolve to it; under check policy EveryN(1) an Inserted state must have no certain empty-circumsphere violation. States are de-duplicated on an ordered dump that includes the hidden caches (hook).",
+        text="Breadth-first search whose transition is the real insert / insert_with_statistics call on a clone of the real DelaunayTriangulation: every history over the per-dimension point alphabet (3x3 grid, unit cube + centre, D=4/5 cube alphabets; duplicates, on-edge/on-vertex, collinear and coplanar bootstrap prefixes included) to the reported depth, from the empty triangulation and from batch-constructed seeds, under the default policies and every single-policy deviation (ValidationPolicy, TopologyGuarantee, repair policy, check policy) plus at most one mid-history policy change, and a 'latent violation, then switch-on' family (histories built under repair policy Never on alphabets with flat simplices and outliers; from every state that is not Delaunay the repair policy EveryInsertion and the check policy EveryN(1) are switched on - two mid-history changes at any vertex count - followed by every one- and two-insertion continuation through both entry points); both kernels, release and debug-assertion profiles. After every call, whatever it returned, the state must be the bootstrap state or pass the independent Level 1-3 reference at the current guarantee; Inserted must add exactly the caller's vertex and the returned key must resolve to it; under check policy EveryN(1) an Inserted state must have no certain empty-circumsphere violation. States are de-duplicated on an ordered dump that includes the hidden caches (hook).",
         note="Exhaustive to the depth recorded in the evidence file only; alphabets are small exact grids. Trusts the reference validators, the exact oracle and that the hidden-state digest hook is read-only. Panicking transitions are counted but judged by C19.",
         design_ref="DESIGN.md section 5 (C02)"),
     "C03": dict(
         category="fault_enumeration",
         technique="exhaustive fault enumeration on the real code: every mutation op in every BFS state (natural failures) and every failpoint site x hit index x error flavour armed one at a time, with fingerprint-equality and differential-future oracles",
-        text="For every state of a breadth-first exploration (insert/remove/flip/repair histories from the empty triangulation and from batch-constructed seeds, D=2..5, both kernels, default policies plus repair/check/validation/guarantee deviations incl. repair x check pairs), every op of the mutation alphabet is applied: insert (both entry points, every alphabet point), duplicate-UUID insert, remove of every vertex and of an unknown vertex, every flip handle that can be formed incl. stale/out-of-range ones, both repair entry points. Whenever a call returns Err or Skipped the semantic fingerprint (vertices with UUID, coordinate bits, data; cells as vertex-UUID sets; neighbour pairs; counts; policies) must equal the one taken before the call, and a menu of follow-up operations must give equal results on the survivor and on a pristine clone (this is what exposes caches that did not roll back). Then, for the states up to the recorded depth, the operation is re-run once per (failpoint site, hit index <= 3, error flavour) with exactly that internal error return forced (guarded hooks at 40 sites in insertion, cavity, hull extension, post-insertion repair/check, removal, flips and repair postcondition): a surfaced failure must satisfy the same oracle, an absorbed one must leave a state that passes the independent Level 1-3 reference.",
-        note="Deviation bound: one injected failure per operation. Failpoints are inert unless armed on the calling thread. The sites are a finite list chosen by reading the code (Appendix A of DESIGN.md), not every `?` in the crate. Known finding: public Edit-API flips are not rolled back when an internal step fails after the first mutation (listed per flip kind). Two genuine defects found by this check were repaired (`fix:` commits 2901a58, 5e1db2b).",
+        text="For every state of a breadth-first exploration (insert/remove/flip/repair histories from the empty triangulation and from batch-constructed seeds, D=2..5, both kernels, default policies plus repair/check/validation/guarantee deviations incl. repair x check pairs), every op of the mutation alphabet is applied: insert (both entry points, every alphabet point), duplicate-UUID insert, remove of every vertex and of an unknown vertex, every flip handle that can be formed incl. stale / foreign / out-of-range ones (k=1 insertion into a foreign cell and with the UUID of an existing vertex included), both repair entry points. Whenever a call returns Err or Skipped the semantic fingerprint (vertices with UUID, coordinate bits, data; cells as vertex-UUID sets; neighbour pairs; counts; policies) must equal the one taken before the call, and a menu of follow-up operations must give equal results on the survivor and on a pristine clone (this is what exposes caches that did not roll back). Then, for the states up to the recorded depth, the operation is re-run once per (failpoint site, hit index <= 3, error flavour) with exactly that internal error return forced (guarded hooks at 40 sites in insertion, cavity, hull extension, post-insertion repair/check, removal, flips and repair postcondition): a surfaced failure must satisfy the same oracle, an absorbed one must leave a state that passes the independent Level 1-3 reference.",
+        note="Deviation bound: one injected failure per operation. Failpoints are inert unless armed on the calling thread. The sites are a finite list chosen by reading the code (Appendix A of DESIGN.md), not every `?` in the crate. Known finding: public Edit-API flips are not rolled back when an internal step fails after the first mutation (listed per flip kind). Three genuine defects found by this check were repaired (`fix:` commits 2901a58, 5e1db2b, 74d670e).",
         design_ref="DESIGN.md section 5 (C03), 2.5, Appendix A"),
     "C04": dict(
         category="model_checking",
@@ -46,14 +46,14 @@ CLAIMED = {
     "C09": dict(
         category="model_checking",
         technique="explicit-state BFS over mixed operation histories on the real object with a reference model (list of live / former positions) and exhaustive probe insertions in every state",
-        text="Breadth-first search over histories of {insert, remove_vertex, Edit-API k=1 insert / k=1 remove, repair_delaunay_with_flips_advanced, clone swap, serde round-trip swap, mutable-view touch} from the empty triangulation and from constructed seeds (D=2..4, 5 in thorough; both kernels; alphabets containing on-edge and collinear points so that perturbation retries occur). In every reached state: all live vertices are pairwise at least the documented tolerance apart (exact arithmetic) and UUIDs are unique; then, on a clone, an insertion (both entry points) is probed at q, q+-0.5e-10 and q+-2e-10 for every current (stored) and every former vertex position q, and the outcome must be the duplicate-coordinates outcome exactly when the reference model has a live vertex strictly within 1e-10; re-using a live UUID must give the duplicate-UUID error.",
+        text="Breadth-first search over histories of {insert, remove_vertex, Edit-API k=1 insert / k=1 remove, repair_delaunay_with_flips_advanced, clone swap, serde round-trip swap, mutable-view touch} from the empty triangulation and from constructed seeds (D=2..4, 5 in thorough; both kernels; alphabets containing on-edge and collinear points so that perturbation retries occur). In every reached state: all live vertices are pairwise at least the documented tolerance apart (exact arithmetic) and UUIDs are unique; then, on a clone, an insertion (both entry points) is probed at q, q+-0.5e-10 and q+-2e-10 for every current (stored) and every former vertex position q, and the outcome must be the duplicate-coordinates outcome exactly when the reference model has a live vertex strictly within 1e-10 (a refusal that names a perturbed retry candidate lying exactly within the tolerance of a live vertex counts as a refusal of a live duplicate); re-using a live UUID must give the duplicate-UUID error.",
         note="Probes within 1% of the tolerance boundary are skipped. Batch-construction skipping/counting of duplicates is covered by C01's multiset and near-duplicate families. Two genuine defects found by this check were repaired (fix: 59315ef Edit-API flips bypassed the spatial index; fix: 289869f index kept stale keys after the initial-simplex rebuild).",
         design_ref="DESIGN.md section 5 (C09)"),
     "C05": dict(
         category="fault_enumeration",
         technique="exhaustive enumeration of a fault catalogue at every location of every seed complex (through guarded raw mutators), library verdict per level compared with an independent reference verdict",
-        text="For every batch-constructed subject (subsets of scaled grids, D=2..5, all three guarantees on D=2,3, both kernels) each of 27 fault kinds - non-finite coordinate, nil UUID, cell with missing / extra / repeated vertex, short neighbour buffer, UUID-map entry removed / redirected, cell referencing a removed vertex, dangling / wrong incident cell, duplicate cell, neighbour slot cleared / invented / wrong cell / dangling / rotated, vertex slots swapped with and without their neighbour slots, raw cell removal, isolated vertex, two vertices identified (pinched links), cell vertex replaced (inverted / overlapping cells), vertex moved onto / across the opposite facet / far away - is injected at every location, plus a strided set of fault pairs on complexes with at most 4 cells. The reference recomputes Levels 1-3 (and completion-time vertex links) from the raw cells; the lowest violated level owns the fault: the library's validator of that level must reject, every lower level must accept, uncorrupted library output must be accepted by everything, tds.validate / triangulation.validate / dt.validate must equal the conjunction of their levels, validation_report must be Ok exactly when validate is, and no validator may panic.",
-        note="Geometric verdicts whose determinant is non-zero but inside the tolerance band are skipped; exactly flat cells are certain. Faults are applied through the verif-hooks raw accessors only.",
+        text="For every batch-constructed subject (subsets of scaled grids, D=2..5, all three guarantees on D=2,3, both kernels) each of 27 fault kinds - non-finite coordinate, nil UUID, cell with missing / extra / repeated vertex, short neighbour buffer, UUID-map entry removed / redirected, cell referencing a removed vertex, dangling / wrong incident cell, duplicate cell, neighbour slot cleared / invented / wrong cell / dangling / rotated, vertex slots swapped with and without their neighbour slots, raw cell removal, isolated vertex, two vertices identified (pinched links), cell vertex replaced (inverted / overlapping cells), vertex moved onto / across the opposite facet / far away - is injected at every location, plus a strided set of fault pairs on complexes with at most 4 cells. Shapes that no single fault produces are added through the public Deserialize impl: the cone, double and triple cone (up to D=5) over every D=2 / D=3 subject with every topological single fault (vertices identified, cell removed, cell vertex replaced), and hand-built locally embedded complexes (two closed fans / two closed octahedral vertex stars sharing only their centre, joined facet-to-facet by a strip; with and without the second fan / star; each with every topological single fault) and all their cones, each judged under all three guarantees. The reference recomputes Levels 1-3 (and completion-time vertex links) from the raw cells; the lowest violated level owns the fault: the library's validator of that level must reject, every lower level must accept, uncorrupted library output must be accepted by everything, tds.validate / triangulation.validate / dt.validate must equal the conjunction of their levels, validation_report must be Ok exactly when validate is, and no validator may panic.",
+        note="Geometric verdicts whose determinant is non-zero but inside the tolerance band are skipped; exactly flat cells are certain. Faults are applied through the verif-hooks raw accessors only; shapes are loaded through serde. Known finding: in D>=4 the vertex-link validator accepts a star pinched along an edge (link = two balls meeting in a point).",
         design_ref="DESIGN.md section 5 (C05), Appendix B"),
     "C06": dict(
         category="model_checking",
@@ -70,8 +70,8 @@ CLAIMED = {
     "C11": dict(
         category="model_checking",
         technique="exhaustive enumeration of (valid state, operation, hull query) triples on the real objects; reference boundary and exact sidedness oracle; staleness obligations derived from observed change or recorded post-mutation failpoint hits",
-        text="For every valid corpus state (D=2..5, both kernels) a ConvexHull is built on an independent copy of the triangulation (own generation counter): its facets must be exactly the facets incident to one cell, form a closed surface with every vertex on the closed inner side (exact), validate() must accept, and find_visible_facets / is_point_outside / is_facet_visible_from_point must equal exact sidedness for every decidable query point. Then every op of the alphabet - inserts (incl. one with 1e200 coordinates that mutates and rolls back), duplicate-UUID insert, removal of every vertex and of an unknown one, flip handles, both repairs, policy setters, mutable-view touch, clone swap, serde swap - is applied to the very object the hull was built from: if the complex changed, or the operation failed after mutating (a failpoint site was reached in record mode) and rolled back, every hull query must report staleness; if nothing changed and the hull still answers, the answers must still be exact.",
-        note="Each (state, op) pair uses a serde-rebuilt object so that no sibling's generation bump can mask a missing one (the counter is an Arc shared with clones). Policy setters are not changes to the triangulation (a first version of this check alarmed on them: corrected, see DESIGN.md).",
+        text="For every valid corpus state (D=2..5, both kernels) a ConvexHull is built on an independent copy of the triangulation (own generation counter): its facets must be exactly the facets incident to one cell, form a closed surface with every vertex on the closed inner side (exact), validate() must accept, and find_visible_facets / is_point_outside / is_facet_visible_from_point must equal exact sidedness for every decidable query point (centroid, reflections of vertices and facets, far axis points, and points lying exactly in the supporting hyperplane of a hull facet outside the facet). Then every op of the alphabet - inserts (incl. one with 1e200 coordinates that mutates and rolls back), duplicate-UUID insert, removal of every vertex and of an unknown one, flip handles, both repairs, policy setters, mutable-view touch, clone swap, serde swap - is applied to the very object the hull was built from: if the complex changed, or the operation failed after mutating (a failpoint site was reached in record mode) and rolled back, every hull query must report staleness; if nothing changed and the hull still answers, the answers must still be exact.",
+        note="Each (state, op) pair uses a serde-rebuilt object so that no sibling's generation bump can mask a missing one (the counter is an Arc shared with clones). Policy setters are not changes to the triangulation (a first version of this check alarmed on them: corrected, see DESIGN.md). One genuine defect was repaired (fix: 7d2e1b6, facets coplanar with the query reported visible).",
         design_ref="DESIGN.md section 5 (C11)"),
     "C13": dict(
         category="fault_enumeration",
@@ -106,8 +106,8 @@ CLAIMED = {
     "C18": dict(
         category="exploration",
         technique="exhaustive enumeration of grid simplices x vertex orders x translations x dyadic scalings against exact big-integer Gram / Cramer values",
-        text="Every (D+1)-subset (strided where stated in the evidence) of per-dimension integer alphabets for D=1..5, exactly degenerate ones included, under vertex reorderings, translations by (7,-3,5,-2,4) and 1024 (D<=3) and scalings by 2^+-10, through simplex_volume, facet_measure (every facet), circumcenter, circumradius, inradius, radius_ratio and normalized_volume. Values of non-degenerate simplices must agree with the exact rational value (big-integer Gram determinants, Cramer circumcentre) within 1e-9 relative, be invariant under reorder / translation, and scale with the right power; an exactly degenerate simplex must give an error (a volume / inradius below 1e-6 of the natural scale counts as numerically zero).",
-        note="Nothing is asserted for simplices with an exact measure below 1e-9 (the crate's absolute degeneracy thresholds). Known finding: circumcenter / circumradius return finite garbage for exactly degenerate simplices in every dimension (zero-tolerance LU retry).",
+        text="Every (D+1)-subset (strided where stated in the evidence) of per-dimension integer alphabets for D=1..5, exactly degenerate ones included, under vertex reorderings, translations by (7,-3,5,-2,4) and 1024 (D<=3) and scalings by 2^+-10, through simplex_volume, facet_measure (every facet), circumcenter, circumradius, inradius, radius_ratio and normalized_volume. Values of non-degenerate simplices must agree with the exact rational value (big-integer Gram determinants, Cramer circumcentre) within 1e-9 relative, be invariant under reorder / translation, and scale with the right power; an exactly degenerate simplex must give an error from simplex_volume, inradius, circumcenter and circumradius, a flat facet must not get a finite non-zero facet_measure, and the non-flat facets of a flat simplex must still match their exact measure (one finding per function).",
+        note="Nothing is asserted for simplices with an exact measure below 1e-9 (the crate's absolute degeneracy thresholds). Known finding: circumcenter / circumradius return finite garbage for exactly degenerate simplices in every dimension (zero-tolerance LU retry). One genuine defect was repaired (fix: 4c7480c, scale-dependent degeneracy tolerance of the Gram determinant).",
         design_ref="DESIGN.md section 4 (C18)"),
     "C19": dict(
         category="model_checking",
